@@ -743,6 +743,28 @@ func (t *Ty) hasIface(d int) bool {
 	return false
 }
 
+// mentionsRec reports whether a self-referential declared type occurs in t.
+func (t *Ty) mentionsRec(d int) bool {
+	if t == nil || d > 5 {
+		return false
+	}
+	if t.Rec {
+		return true
+	}
+	if t.Name != "" {
+		return false
+	}
+	if t.Elem.mentionsRec(d+1) || t.Key.mentionsRec(d+1) {
+		return true
+	}
+	for _, f := range t.Fields {
+		if f.T.mentionsRec(d + 1) {
+			return true
+		}
+	}
+	return false
+}
+
 func (t *Ty) ordered() bool {
 	switch t.kind() {
 	case KInt, KFloat, KString:
